@@ -35,12 +35,16 @@ def make(kind, base, retry_sleep=1.0):
 def _eparams():
     out = []
     for kind in KINDS:
-        for action in ("shutdown", "shutdown_nowait", "drop", "atexit"):
+        for action in ("shutdown", "shutdown_nowait", "shutdown_nowait_kept", "drop", "atexit"):
             for workload in ("idle", "waking", "pending", "done"):
                 if workload == "pending" and action != "drop":
                     continue
                 out.append(dict(kind=kind, action=action, workload=workload))
+        if kind == "throttle":
+            # a future cancelled while still queued is kept by the user; the executor is dropped
+            out.append(dict(kind=kind, action="drop", workload="cancelled_queued_kept"))
         if kind == "retry":
+            out.append(dict(kind=kind, action="shutdown_nowait_kept", workload="between_retries"))
             # the executor (and its future) is dropped while the worker sleeps out a long back-off
             out.append(dict(kind=kind, action="drop", workload="between_retries"))
             out.append(dict(kind=kind, action="atexit", workload="between_retries"))
@@ -54,6 +58,15 @@ def ebody(mc, p):
     box = {"ex": make(p["kind"], base, retry_sleep=40.0 if p["workload"] == "between_retries" else 1.0)}
     wl = p["workload"]
     fut = {}
+    if wl == "cancelled_queued_kept":
+        occ = box["ex"].submit(lambda: "occ")         # occupies the single slot
+        q = box["ex"].submit(lambda: "queued")
+        mc.sleep(0.25)
+        mc.emit("cancel.queued", r=q.cancel())
+        fut["kept"] = q                               # the user keeps the cancelled future
+        base.complete(0, "occ")
+        mc.sleep(0.25)
+        del occ, q
     if wl == "between_retries":
         f = box["ex"].submit(lambda: "v")
         mc.sleep(0.25)
@@ -81,6 +94,8 @@ def ebody(mc, p):
             box.pop("ex").shutdown(True)
         elif a == "shutdown_nowait":
             box.pop("ex").shutdown(False)
+        elif a == "shutdown_nowait_kept":
+            box["ex"].shutdown(False)          # the user keeps the executor object afterwards
         elif a == "drop":
             box.pop("ex")                  # the last user reference goes away here
         elif a == "atexit":
